@@ -5,66 +5,6 @@ use crate::c12::*;
 
 /// Test generated for harness `c12::c12_rank_opt_n0n1` 
 ///
-/// Check for `cover`: "fractional ranks"
-///
-/// # Warning
-///
-/// Concrete playback tests combined with stubs or contracts is highly
-/// experimental, and subject to change.
-///
-/// The original harness has stubs which are not applied to this test.
-/// This may cause a mismatch of non-deterministic values if the stub
-/// creates any non-deterministic value.
-/// The execution path may also differ, which can be used to refine the stub
-/// logic.
-
-#[test]
-fn kani_concrete_playback_c12_rank_opt_n0n1_11765918347498284339() {
-    let concrete_vals: Vec<Vec<u8>> = vec![
-        // 1
-        vec![1],
-        // 0
-        vec![0],
-        // 1
-        vec![1],
-        // 0
-        vec![0, 0, 0, 0],
-    ];
-    kani::concrete_playback_run(concrete_vals, c12_rank_opt_n0n1);
-}
-
-/// Test generated for harness `c12::c12_rank_opt_n0n1` 
-///
-/// Check for `cover`: "descending ranks"
-///
-/// # Warning
-///
-/// Concrete playback tests combined with stubs or contracts is highly
-/// experimental, and subject to change.
-///
-/// The original harness has stubs which are not applied to this test.
-/// This may cause a mismatch of non-deterministic values if the stub
-/// creates any non-deterministic value.
-/// The execution path may also differ, which can be used to refine the stub
-/// logic.
-
-#[test]
-fn kani_concrete_playback_c12_rank_opt_n0n1_12055789515807453680() {
-    let concrete_vals: Vec<Vec<u8>> = vec![
-        // 1
-        vec![1],
-        // 1
-        vec![1],
-        // 1
-        vec![1],
-        // 0
-        vec![0, 0, 0, 0],
-    ];
-    kani::concrete_playback_run(concrete_vals, c12_rank_opt_n0n1);
-}
-
-/// Test generated for harness `c12::c12_rank_opt_n0n1` 
-///
 /// Check for `assertion`: ""null element gets a null rank""
 ///
 /// # Warning
@@ -79,14 +19,44 @@ fn kani_concrete_playback_c12_rank_opt_n0n1_12055789515807453680() {
 /// logic.
 
 #[test]
-fn kani_concrete_playback_c12_rank_opt_n0n1_3933291766511904106() {
+fn kani_concrete_playback_c12_rank_opt_n0n1_5946725732744968497() {
     let concrete_vals: Vec<Vec<u8>> = vec![
         // 0
         vec![0],
+        // 1
+        vec![1],
         // 0
         vec![0],
-        // 0
-        vec![0],
+    ];
+    kani::concrete_playback_run(concrete_vals, c12_rank_opt_n0n1);
+}
+
+/// Test generated for harness `c12::c12_rank_opt_n0n1` 
+///
+/// Check for `cover`: "fractional ranks"
+///
+/// # Warning
+///
+/// Concrete playback tests combined with stubs or contracts is highly
+/// experimental, and subject to change.
+///
+/// The original harness has stubs which are not applied to this test.
+/// This may cause a mismatch of non-deterministic values if the stub
+/// creates any non-deterministic value.
+/// The execution path may also differ, which can be used to refine the stub
+/// logic.
+
+#[test]
+fn kani_concrete_playback_c12_rank_opt_n0n1_13603854332829128003() {
+    let concrete_vals: Vec<Vec<u8>> = vec![
+        // 1
+        vec![1],
+        // 1
+        vec![1],
+        // 1
+        vec![1],
+        // 2
+        vec![2, 0, 0, 0],
     ];
     kani::concrete_playback_run(concrete_vals, c12_rank_opt_n0n1);
 }
